@@ -73,7 +73,10 @@ def draw_config(rng: random.Random, opts) -> dict:
       layers = 2 if z == 1 else z
   else:
     layers = rng.randint(2, 7)
-  cfg = {'mesh': mesh, 'grid': grid, 'knobs': knobs, 'model': model,
+  cfg = {'mesh': mesh,
+         # mesh axes may be declared in any order; the library addresses them by name
+         'mesh_order': rng.choice(['zxy', 'zxy', 'zxy', 'xyz', 'yxz', 'xzy', 'zyx', 'yzx']),
+         'grid': grid, 'knobs': knobs, 'model': model,
          'layers': layers,
          'sigma': gen.draw_sigma_boundaries(rng, layers, uneven=rng.random() < 0.75),
          'tref': gen.draw_tref(rng, layers, constant=rng.random() < 0.3),
@@ -172,7 +175,8 @@ class World:
   def __init__(self, cfg, mesh_factory=None):
     self.cfg = cfg
     mesh_factory = mesh_factory or gen.make_mesh
-    self.mesh = mesh_factory(cfg['mesh']) if cfg['mesh'] else None
+    self.mesh = (mesh_factory(list(cfg['mesh']) + [cfg.get('mesh_order', 'zxy')])
+                 if cfg['mesh'] else None)
     self.grid_ref = gen.build_grid(cfg['grid'], gen.REF_IMPL)
     self.grid_sh = gen.build_grid(cfg['grid'], gen.fast_impl(cfg['knobs']),
                                   mesh=self.mesh)
@@ -213,8 +217,9 @@ class World:
 
 
 def get_world(cfg, mesh_factory=None) -> World:
-  key = kernel.sha([{k: cfg[k] for k in ('mesh', 'grid', 'knobs', 'layers', 'sigma',
-                                          'tref', 'oro', 'state_seed')},
+  key = kernel.sha([{k: cfg.get(k) for k in ('mesh', 'mesh_order', 'grid', 'knobs',
+                                              'layers', 'sigma', 'tref', 'oro',
+                                              'state_seed')},
                     getattr(mesh_factory, '__name__', None)])
   w = _WORLD_CACHE.get(key)
   if w is None:
